@@ -133,12 +133,8 @@ where
     }
     open spec fn pos_pre(&self, p: P2) -> bool { true }
 //@fn geo/src/algorithm/coordinate_position.rs | impl<T> CoordinatePosition for Rect<T> where T: GeoNum, | calculate_coordinate_position | id=C02.V.rect_position
-//@before 1 `let mut boundary = false;`
-        proof {
-            T::ax_obeys();
-            T::ax_cmp(coord.x, self.min.x); T::ax_cmp(coord.y, self.min.y);
-            T::ax_cmp(self.max.x, coord.x); T::ax_cmp(self.max.y, coord.y);
-        }
+//@entry
+        proof { T::ax_obeys(); T::ax_order(); }
 //@end
 }
 
@@ -151,8 +147,8 @@ where
     open spec fn boundary_hits(&self, p: P2) -> nat { 0 }
     open spec fn pos_pre(&self, p: P2) -> bool { true }
 //@fn geo/src/algorithm/coordinate_position.rs | impl<T> CoordinatePosition for Coord<T> where T: GeoNum, | calculate_coordinate_position | id=C02.V.coord_position
-//@before 1 `if self == coord {`
-        proof { T::ax_obeys(); T::ax_cmp(self.x, coord.x); T::ax_cmp(self.y, coord.y); }
+//@entry
+        proof { T::ax_obeys(); T::ax_order(); }
 //@end
 }
 
@@ -190,10 +186,10 @@ where
     }
     open spec fn pos_pre(&self, p: P2) -> bool { true }
 //@fn geo/src/algorithm/coordinate_position.rs | impl<T> CoordinatePosition for Line<T> where T: GeoNum, | calculate_coordinate_position | id=C02.V.line_position
-//@before 1 `if self.start == self.end {`
+//@entry
         proof {
             T::ax_obeys();
-            T::ax_cmp(self.start.x, self.end.x); T::ax_cmp(self.start.y, self.end.y);
+            T::ax_order(); T::ax_cmp(self.start.x, self.end.x); T::ax_cmp(self.start.y, self.end.y);
             T::ax_cmp(coord.x, self.start.x); T::ax_cmp(coord.y, self.start.y);
             T::ax_cmp(coord.x, self.end.x); T::ax_cmp(coord.y, self.end.y);
             T::ax_cmp(self.start.x, coord.x); T::ax_cmp(self.start.y, coord.y);
@@ -282,11 +278,11 @@ impl<T: CoordNum> LineString<T> {
 //@ret r
 //@spec
     ensures r == closed(self.0@),
-//@before 1 `self.0.first()`
+//@entry
     proof {
         T::ax_obeys();
         if self.0@.len() > 0 {
-            T::ax_cmp(self.0@[0].x, self.0@.last().x);
+            T::ax_order(); T::ax_cmp(self.0@[0].x, self.0@.last().x);
             T::ax_cmp(self.0@[0].y, self.0@.last().y);
         }
     }
@@ -322,12 +318,12 @@ where
     /// at least two coordinates (the code's own debug_assert!)
     open spec fn pos_pre(&self, p: P2) -> bool { self.0@.len() >= 2 }
 //@fn geo/src/algorithm/coordinate_position.rs | impl<T> CoordinatePosition for LineString<T> where T: GeoNum, | calculate_coordinate_position | id=C02.V.linestring_position
-//@before 1 `if self.0.len() < 2 {`
+//@entry
         proof {
             T::ax_obeys();
             let s = self.0@;
             let p = pt(*coord);
-            T::ax_cmp(coord.x, s[0].x); T::ax_cmp(coord.y, s[0].y);
+            T::ax_order(); T::ax_cmp(coord.x, s[0].x); T::ax_cmp(coord.y, s[0].y);
             T::ax_cmp(coord.x, s.last().x); T::ax_cmp(coord.y, s.last().y);
             T::ax_cmp(s[0].x, s.last().x); T::ax_cmp(s[0].y, s.last().y);
             // an end point of the line string lies on its first / last segment
